@@ -433,31 +433,72 @@ func topField(path string) string {
 	return path
 }
 
-// elementOf: v is (a copy of) X[idx] for a source slice X accepted by sameX.
+// elementOf: v is computed from X[idx] for a source slice X accepted by sameX: a load of X[idx], of a
+// loop variable that holds it, a value built from it (composite literal, field, conversion) or the
+// result of a call that receives something computed from it.
 func elementOf(v ssa.Value, idx ssa.Value, sameX func(ssa.Value) bool, seen map[ssa.Value]bool) bool {
-	if seen[v] {
+	if v == nil || seen[v] {
 		return false
 	}
 	seen[v] = true
-	u, ok := v.(*ssa.UnOp)
-	if !ok || u.Op != token.MUL {
-		return false
-	}
-	switch a := u.X.(type) {
-	case *ssa.IndexAddr:
-		return a.Index == idx && sameX(a.X)
-	case *ssa.Alloc:
-		// loop variable: every store into it must be such an element
-		okAll, any := true, false
-		for _, ref := range *a.Referrers() {
-			if s, ok := ref.(*ssa.Store); ok && s.Addr == a {
-				any = true
-				if !elementOf(s.Val, idx, sameX, seen) {
-					okAll = false
+	var fromAlloc func(a ssa.Value) bool
+	fromAlloc = func(a ssa.Value) bool {
+		// some store into the local object (or one of its fields) carries an element
+		refs := a.Referrers()
+		if refs == nil {
+			return false
+		}
+		for _, ref := range *refs {
+			switch r := ref.(type) {
+			case *ssa.Store:
+				if r.Addr == a && elementOf(r.Val, idx, sameX, seen) {
+					return true
+				}
+			case *ssa.FieldAddr:
+				if fromAlloc(r) {
+					return true
 				}
 			}
 		}
-		return any && okAll
+		return false
+	}
+	switch x := v.(type) {
+	case *ssa.UnOp:
+		if x.Op != token.MUL {
+			return elementOf(x.X, idx, sameX, seen)
+		}
+		switch a := x.X.(type) {
+		case *ssa.IndexAddr:
+			return a.Index == idx && sameX(a.X)
+		case *ssa.Alloc:
+			return fromAlloc(a)
+		case *ssa.FieldAddr:
+			root, _ := core.AddrKey(a)
+			if al, ok := root.(*ssa.Alloc); ok {
+				return fromAlloc(al)
+			}
+			if ia, ok := root.(*ssa.IndexAddr); ok {
+				return ia.Index == idx && sameX(ia.X)
+			}
+		}
+	case *ssa.Field:
+		return elementOf(x.X, idx, sameX, seen)
+	case *ssa.Convert:
+		return elementOf(x.X, idx, sameX, seen)
+	case *ssa.ChangeType:
+		return elementOf(x.X, idx, sameX, seen)
+	case *ssa.Call:
+		for _, a := range x.Call.Args {
+			if elementOf(a, idx, sameX, seen) {
+				return true
+			}
+		}
+	case *ssa.Phi:
+		for _, e := range x.Edges {
+			if elementOf(e, idx, sameX, seen) {
+				return true
+			}
+		}
 	}
 	return false
 }
